@@ -347,30 +347,45 @@ def r5_r6_pools(repo):
     pool = ch[0].args[0].id
     defs = g.defs_reaching(pool, ch[0])
     kinds = {}
+    prov = Prov(f.node, passthrough={"to_variance_free", "enumerate", "list", "items", "values"})
+
+    def sources(st, v):
+        """leaves the pool defined at `st` is made from: its value, and - for a list that is filled afterwards - what is
+        appended / stored into it before the draw"""
+        leaves = list(prov.sources(v, at=st)) if isinstance(v, ast.AST) else []
+        if isinstance(v, ast.AST):
+            for n in iter_own_nodes(lp):
+                if isinstance(n, ast.Call) and call_name(n) in ("append", "extend") and \
+                        isinstance(n.func, ast.Attribute) and src(n.func.value) == pool and n.lineno >= st.lineno and \
+                        n.lineno <= ch[0].lineno and any(dd[0] == g.node(st) for dd in g.defs_reaching(pool, n)):
+                    leaves += prov.sources(n.args[0], at=n)
+                if isinstance(n, ast.Assign) and isinstance(n.targets[0], ast.Subscript) and \
+                        src(n.targets[0].value) == pool and n.lineno >= st.lineno and n.lineno <= ch[0].lineno and \
+                        any(dd[0] == g.node(st) for dd in g.defs_reaching(pool, n)):
+                    leaves += prov.sources(n.value, at=n)
+        return leaves
+
     for d, v, k in defs:
         st = g.stmt(d)
         gs = [(src(t), p) for t, p in flat_guards(st, stop=lp)]
         s = src(v) if isinstance(v, ast.AST) else str(v)
-        if isinstance(v, ast.List) and not v.elts:
-            kinds.setdefault("empty-init", []).append((st, gs))
-        elif isinstance(v, ast.List) and len(v.elts) == 1 and isinstance(v.elts[0], ast.Name):
-            e = v.elts[0]
-            edefs = g.defs_reaching(e.id, st)
-            es = [src(x[1]) if isinstance(x[1], ast.AST) else
-                  (src(x[1][1]) if isinstance(x[1], tuple) and len(x[1]) > 1 and isinstance(x[1][1], ast.AST) else str(x[1]))
-                  for x in edefs]
-            if any(x == "type_var_map.get(%s)" % tparam for x in es) and (e.id, True) in gs:
-                kinds.setdefault("pre-assignment", []).append((st, gs))
-            elif any("type_var_map.items()" in x for x in es):
-                kinds.setdefault("assignment-of-dependent-variable", []).append((st, gs))
-            elif any(x.startswith("type_var_map[%s.bound]" % tparam) for x in es):
-                kinds.setdefault("assignment-of-bound-variable", []).append((st, gs))
-            else:
-                kinds.setdefault("unknown:" + s, []).append((st, gs))
-        elif isinstance(v, ast.Call) and call_name(v) == "find_subtypes":
-            kinds.setdefault("subtypes-of-bound", []).append((st, gs, v))
-        elif isinstance(v, ast.Name) and v.id == f.params[1]:
+        leaves = sources(st, v)
+        texts = [src(x) for x in leaves if isinstance(x, ast.AST)]
+        fs = [x for x in leaves if isinstance(x, ast.Call) and call_name(x) == "find_subtypes"]
+        if fs:
+            kinds.setdefault("subtypes-of-bound", []).append((st, gs, fs[0]))
+        elif any(x == "type_var_map.get(%s)" % tparam for x in texts):
+            kinds.setdefault("pre-assignment", []).append((st, gs))
+        elif any(x.startswith("type_var_map[%s.bound]" % tparam) for x in texts):
+            kinds.setdefault("assignment-of-bound-variable", []).append((st, gs))
+        elif any("type_var_map.items()" in x for x in texts):
+            kinds.setdefault("assignment-of-dependent-variable", []).append((st, gs))
+        elif ("param", f.params[1]) in leaves and all(
+                isinstance(x, ast.ListComp) and src(x.generators[0].iter) == f.params[1] and src(x.elt) == src(x.generators[0].target)
+                for x in leaves if isinstance(x, ast.AST)):
             kinds.setdefault("whole-pool", []).append((st, gs))
+        elif isinstance(v, ast.List) and not v.elts and not leaves:
+            kinds.setdefault("empty-init", []).append((st, gs))
         else:
             kinds.setdefault("unknown:" + s, []).append((st, gs))
     unknown = [k for k in kinds if k.startswith("unknown")]
